@@ -96,7 +96,7 @@ func (in *Interp) resetPath(item workItem) {
 	in.mapJournal = in.mapJournal[:0]
 	in.depth = 0
 	in.floatID = 0
-	in.sched = in.Cfg.Sched
+	in.sched = false // switched on by vrt.SchedBegin
 	if in.Cfg.Race {
 		in.race = newRaceMon()
 	} else {
@@ -335,6 +335,7 @@ type HarnessResult struct {
 	Cov         *Coverage
 	Wall        time.Duration
 	Truncated   bool
+	TruncatedWhy string
 	distinct    map[string]bool
 	Distinct    int
 }
@@ -443,6 +444,18 @@ func RunHarness(p *Program, cfg *Config, pkgPath, fnName string, log func(string
 			}
 			if cfg.MaxPaths > 0 && n >= cfg.MaxPaths {
 				res.Truncated = true
+				res.TruncatedWhy = fmt.Sprintf("path budget (%d) exhausted", cfg.MaxPaths)
+				stop = true
+			}
+			if len(res.Violations) >= 12 && !stop {
+				// enough distinct counterexample classes: stop exploring, replay what we have
+				res.Truncated = true
+				res.TruncatedWhy = "stopped after 12 distinct violation classes"
+				stop = true
+			}
+			if cfg.MaxWall > 0 && time.Since(t0) > cfg.MaxWall && !stop {
+				res.Truncated = true
+				res.TruncatedWhy = fmt.Sprintf("wall-clock budget (%s) exhausted", cfg.MaxWall)
 				stop = true
 			}
 			if !stop {
